@@ -1,4 +1,7 @@
 import LoguruModel.Markup.Spec
+import LoguruModel.Markup.Tree
+import LoguruModel.Markup.SgrString
+import LoguruModel.Markup.Handlers
 import LoguruModel.Markup.Format
 import LoguruModel.Driver
 open Markup Py
@@ -48,6 +51,52 @@ def decFeeds (s : String) : Option (List (Str × Bool)) :=
     | some x, some a => some ((x, t.startsWith "R") :: a)
     | _, _ => none) (some [])
 
+/-- state of the `multi` op: the live core, and the core of the ORIGINAL logger frozen when it was copied -/
+structure MS where
+  cur : MCore := {}
+  orig : Option MCore := none
+  out : List String := []
+  bad : Bool := false
+
+def showEmit (c : MCore) (name : Str) : String :=
+  if c.handlers.isEmpty then "_" else
+  "|".intercalate (c.handlers.map fun ih => match ih.2.emitFormat c.ansi name with
+    | .ok s => "ok:" ++ encTok s
+    | .error e => "err:" ++ toString e)
+
+def multiOp (st : MS) (op : String) : MS :=
+  if st.bad then st else
+  let fail : MS := { st with bad := true }
+  let apply (o : MOp) : MS := match mstep st.cur o with
+    | .ok c => { st with cur := c }
+    | .error _ => fail
+  match op.splitOn ";" with
+  | ["A", id, c, d, fmt] =>
+    match id.toNat?, decTok fmt with
+    | some i, some f =>
+      match parse f with
+      | .ok toks => apply (.add i toks (c == "1") (d == "1"))
+      | .error _ => fail
+    | _, _ => fail
+  | ["L", name, color] =>
+    match decTok name, decTok color with
+    | some n, some col => apply (.level n col)
+    | _, _ => fail
+  | ["R", id] =>
+    match id.toNat? with
+    | some i => apply (.remove i)
+    | none => fail
+  | ["C"] => { st with orig := some st.cur }
+  | ["G", name] =>
+    match decTok name with
+    | some n => { st with out := st.out ++ [showEmit st.cur n] }
+    | none => fail
+  | ["O", name] =>
+    match decTok name, st.orig with
+    | some n, some o => { st with out := st.out ++ [showEmit o n] }
+    | _, _ => fail
+  | _ => fail
+
 def step (line : String) : String :=
   match line.splitOn " " with
   | ["parse", t] =>
@@ -88,6 +137,37 @@ def step (line : String) : String :=
         | .ok (c, p) => "ok " ++ encTok c ++ " " ++ encTok p
         | .error e => "err " ++ toString e
     | _, _, _, _ => "bad-op"
+  | ["pairw", chunks, feeds, color, vals, msg] =>
+    match decChunks chunks, decFeeds feeds, decTok color, decList vals, decTok msg with
+    | some ch, some fs, some col, some vs, some m =>
+      match ansify col with
+      | .error e => "err-level " ++ toString e
+      | .ok lvl =>
+        match handlerPairRewritten ch fs lvl vs m with
+        | .ok (c, p) => "ok " ++ encTok c ++ " " ++ encTok p
+        | .error e => "err " ++ toString e
+    | _, _, _, _, _ => "bad-op"
+  | ["sgrstr", t] =>
+    match decTok t with
+    | some t =>
+      let cs := Spec.sgrStr t
+      if cs.isEmpty then "ok _" else
+      "ok " ++ ",".intercalate (cs.map fun (c, st) => toString c.toNat ++ "/" ++ ";".intercalate (st.map encTok))
+    | none => "bad-op"
+  | ["tree", lvl, t] =>
+    match decList lvl, decTok t with
+    | some lv, some t =>
+      match Spec.tree lv t with
+      | .ok cs =>
+        if cs.isEmpty then "ok _" else
+        "ok " ++ ",".intercalate (cs.map fun (c, st) => toString c.toNat ++ "/" ++ ";".intercalate (st.map encTok))
+      | .error .bad => "err bad"
+      | .error .unclosed => "err unclosed"
+    | _, _ => "bad-op"
+  | ["multi", init, ops] =>
+    let st0 := (init.splitOn ",").foldl (fun st o => multiOp st ("L;" ++ o)) ({} : MS)
+    let st := (ops.splitOn ",").foldl multiOp st0
+    if st.bad then "bad-op" else if st.out.isEmpty then "_" else ",".intercalate st.out
   | ["ws", n] =>
     match n.toNat? with
     | some n => if isWs (Char.ofNat n) then "1" else "0"
